@@ -120,7 +120,7 @@ def split(r, chunk=150):
 def evaluate(ck, recs):
     parts = []
     for r in recs:
-        if not r.get("msgok", True):
+        if not r.get("msgok", False):
             ck.failures.append(dict(kind="input", key="c06:msg:spec", spec_violated=True, case={"scenario": r["id"], "phase": r.get("phase")},
                                     what="Certificate.Sign/Verify do not use the LIP certificate message SHA-256('LSK_CE_' || chainID || encode(blockID, height, timestamp, stateRoot, validatorsHash)): the signature the implementation produces differs from the independently computed one (scenario %d)" % r["id"],
                                     theorem_or_correspondence="msg_of (Section variable) vs Certificate.SigningBytes/Sign"))
@@ -136,6 +136,10 @@ def evaluate(ck, recs):
         for o in p["ops"]:
             ck.count()
             t = o["t"]
+            if t == "s" and o.get("r") not in ("reject", "ignore"):
+                ck.failures.append(dict(kind="input", key="c06:s:model", spec_violated=False, case={"scenario": p["id"], "op": o},
+                                        what="singleCommitValidator answered %r (the model knows only Reject and Ignore: the commits are republished from the pool, never by gossipsub)" % o.get("r"),
+                                        theorem_or_correspondence="Cert.Pool.single_commit_validator vs singleCommitValidator"))
             if t == "v":
                 ck.nontrivial(("v", o["tag"], o["r"], len(o["ac"]["bits"]), tuple(o["ac"]["bits"]), o["ac"]["h"] - p["mhc"], o["ac"]["h"] - p["mhp"]))
             elif t == "g":
@@ -176,6 +180,11 @@ def reorg(ck):
         if not r["stale_admitted"]:
             ck.fail_case("c06:reorg:setup", "reorg scenario: the commit for the non-finalised parameter-change block was not admitted "
                          "(scenario no longer exercises the reorg path): %s" % json.dumps(r)[:600], r)
+        if len(r["honest_signers"]) == 4 and (r["agg_height"] != r["h"] or r["bits"] != [15]):
+            ck.failures.append(dict(kind="input", key="c06:reorg:spec", spec_violated=True, case=r,
+                                    what="reorg scenario with all four validators certifying the sibling: GetAggregateCommit did not assemble the "
+                                         "certificate of height %d with all four bits (got height %s bits %s): %s" % (r["h"], r["agg_height"], r["bits"], json.dumps(r)[:500]),
+                                    theorem_or_correspondence="C06_assemble_accepts_across_reorgs vs Executer (exh)"))
         if r["verify"] != "accept":
             ck.failures.append(dict(kind="input", key="c06:reorg:spec", spec_violated=True, case=r,
                                     what="GetAggregateCommit after a reorg: the node's own verifyAggregateCommit rejects the commit it assembled "
@@ -194,7 +203,7 @@ def run(ck):
     if not binp:
         return
     if ck.tier == "quick":
-        args = ["-scenarios", "11", "-long", "3", "-poolops", "50", "-phases", "2", "-big", "4"]
+        args = ["-scenarios", "11", "-long", "3", "-poolops", "36", "-phases", "2", "-big", "4"]
     else:
         args = ["-scenarios", "46", "-long", "10", "-poolops", "150", "-phases", "4", "-big", "10"]
     recs = ck.run_harness(binp, args)
